@@ -41,7 +41,7 @@ def verify(pid, name=None):
         os.rename(demo_path, '/tmp/%s.rs.aside' % demo)
         rc, o = sh('cargo test --offline 2>&1 | grep -E "^test result|FAILED|failed" | head -20', cwd=wt)
         log.append('suite with patch:\n' + o)
-        suite_ok = 'test result: ok. 60 passed' in o and 'FAILED' not in o
+        suite_ok = bool(__import__('re').search(r'test result: ok\. (6\d) passed', o)) and 'FAILED' not in o
         os.rename('/tmp/%s.rs.aside' % demo, demo_path)
     # 2. demo with patch
     rc, o = sh('cargo test --offline %s --test %s 2>&1 | grep -E "^test result|^test .* FAILED" | head -20' % (release, demo), cwd=wt)
